@@ -283,3 +283,41 @@ Theorem C12_socks_udp_tunnel_roundtrip_any_chunking :
   tc_recv_all (S (length ds)) r = ds.
 Proof. exact tc_roundtrip_any_chunking. Qed.
 Print Assumptions C12_socks_udp_tunnel_roundtrip_any_chunking.
+
+(* ---- timing-shaped clauses: their logic core ---- *)
+(* every firing of the 20 ms ticker flushes whatever is batched — unconditionally, so batched datagrams leave while the
+   flow continues (how soon in real time is the ticker's business: harness mode udptrickle) *)
+Theorem C12_udp_every_tick_flushes :
+  forall e : est,
+  e_batch (estep UdpBatchBufSize e EvTick) = [] /\
+  concat (e_out (estep UdpBatchBufSize e EvTick)) = concat (e_out e) ++ e_batch e.
+Proof. exact c12_tick_flushes. Qed.
+Print Assumptions C12_udp_every_tick_flushes.
+
+(* the variant that flushes only after a quiet interval: a steady trickle is never flushed *)
+Theorem C12_udp_quiet_interval_tick_variant_refuted :
+  let q := fold_left (qstep UdpBatchBufSize) [EvD [1]; EvTick; EvD [2]; EvTick; EvD [3]; EvTick; EvD [4]; EvTick]
+                     {| q_e := est0; q_last := 0 |} in
+  e_out (q_e q) = [] /\ e_batch (q_e q) = [0; 1; 1; 0; 1; 2; 0; 1; 3; 0; 1; 4].
+Proof. exact c12_quiet_tick_refuted. Qed.
+Print Assumptions C12_udp_quiet_interval_tick_variant_refuted.
+
+(* the listening client's UDP session (udp_adapter.go): for every history of application datagrams, relay writes and
+   cleanup passes in which every cleanup pass comes within the TTL of the most recent datagram IN EITHER DIRECTION, the
+   session is never closed and no tunnel->UDP datagram is refused *)
+Theorem C12_udp_session_survives_traffic_in_either_direction :
+  forall (evs : list sev) (s : sess),
+  ss_closed s = false -> live_traffic UdpSessionTTLSeconds (ss_last s) evs ->
+  ss_closed (sess_run true UdpSessionTTLSeconds s evs) = false /\
+  ss_lost (sess_run true UdpSessionTTLSeconds s evs) = ss_lost s.
+Proof. exact c12_session_survives. Qed.
+Print Assumptions C12_udp_session_survives_traffic_in_either_direction.
+
+(* the variant whose Write does not refresh the activity stamp: a one-way feed (a datagram every 10 s) meets the
+   hypothesis, yet the session is closed and the rest of the feed is refused *)
+Theorem C12_udp_session_write_not_refreshing_variant_refuted :
+  live_traffic UdpSessionTTLSeconds 0 feed_history /\
+  ss_closed (sess_run false UdpSessionTTLSeconds {| ss_last := 0; ss_closed := false; ss_lost := 0 |} feed_history) = true /\
+  ss_lost (sess_run false UdpSessionTTLSeconds {| ss_last := 0; ss_closed := false; ss_lost := 0 |} feed_history) = 2.
+Proof. exact c12_session_out_only_refuted. Qed.
+Print Assumptions C12_udp_session_write_not_refreshing_variant_refuted.
